@@ -133,7 +133,6 @@ pub fn fresh_equivalence(script: &Script, tr: &Trace, flavor: Flavor, watchdog: 
         cmp!("error", x.ret_err.clone(), y.ret_err.clone());
         cmp!("wait error", x.wait_err.clone(), y.wait_err.clone());
         cmp!("value seen by the step", x.seen.as_ref().map(seen), y.seen.as_ref().map(seen));
-        cmp!("update applied inside the call", x.update_path, y.update_path);
         cmp!("get of every key", x.probe.get.iter().map(seen).collect::<Vec<_>>(), y.probe.get.iter().map(seen).collect::<Vec<_>>());
         cmp!("get_mut of every key", x.probe.get_mut.iter().map(seen).collect::<Vec<_>>(), y.probe.get_mut.iter().map(seen).collect::<Vec<_>>());
         cmp!("get_ttl of every key", x.probe.ttl.clone(), y.probe.ttl.clone());
@@ -148,8 +147,15 @@ pub fn fresh_equivalence(script: &Script, tr: &Trace, flavor: Flavor, watchdog: 
         cmp!("max_cost", x.snap.max_cost, y.snap.max_cost);
         cmp!("hits and misses", x.metrics.map(|m| m[..2].to_vec()), y.metrics.map(|m| m[..2].to_vec()));
         if i > 0 {
-            evs_a.extend(x.events.iter().map(|e| format!("{:x?}", e.kind)));
-            evs_b.extend(y.events.iter().map(|e| format!("{:x?}", e.kind)));
+            // which values have left through a callback / been dropped; not through which callback: an entry
+            // whose TTL has elapsed leaves through on_evict if the sweep comes first and through on_exit if a
+            // re-insert of its key comes first
+            let leave = |e: &crate::val::Ev| match &e.kind {
+                crate::val::EvKind::Cb { id, key, .. } => format!("callback for #{id:x} (key {key})"),
+                other => format!("{other:x?}"),
+            };
+            evs_a.extend(x.events.iter().map(leave));
+            evs_b.extend(y.events.iter().map(leave));
         }
         if settled(x) && settled(y) {
             rep.count("c11_settled_records_compared_in_full");
